@@ -7,11 +7,12 @@ import c02_units as u
 def spec(tier, seed):
     b = CertShape()
     certs = [b, replace(b, is_ca=1), replace(b, ku=1), replace(b, san=(0, 3), is_ca=3, path_len=128), replace(b, nc=2, nc_perm=(1,), nc_excl=(2,)),
-             replace(b, issuance=1, aki=True, san=(1,), ku=4, eku=(1, 7), serial=3, serial_b0=0x80, custom=1, custom_crit=1, crl_dps=(2,))]
+             # (one shape with all of these at once needs > 11 GB and > 18 min of symbolic execution: split in two)
+             replace(b, issuance=1, aki=True, san=(1,), ku=4, eku=(1, 7), serial=3, serial_b0=0x80), replace(b, custom=1, custom_crit=1, crl_dps=(2,))]
     csrs = [CsrShape(attrs=2), CsrShape(san=(1,), ku=1, eku=(1,), custom=1, attrs=2), CsrShape(ku=3, attrs=1)]
     crls = [CrlShape(revoked=(2,), invalidity=1, idp=2), CrlShape(revoked=(0, 9), idp=3, number_len=3, number_b0=0xff)]
     if tier == "thorough":
-        certs += [replace(b, is_ca=2), replace(b, is_ca=3, path_len=128), replace(b, ku=3), replace(b, san=(0, 3)), replace(b, custom=1, custom_crit=1, crl_dps=(2,))]
+        certs += [replace(b, is_ca=2), replace(b, is_ca=3, path_len=128), replace(b, ku=3), replace(b, san=(0, 3))]
         csrs += [CsrShape()]
         crls += [CrlShape()]
         for k in (2, 4, 5, 6):
